@@ -44,7 +44,9 @@ class Mw:
                  "pre_tag": rng.choice([None, None, None, "decided-before"]),
                  "t0": rng.choice([0, 1000000, 250000000]), "match_method": rng.random() < 0.5,
                  # the caller fixed the call's timeout (client.WithRPCTimeout locks it): routing must still decide and pass on
-                 "lock_timeout": rng.random() < 0.25}
+                 "lock_timeout": rng.random() < 0.25,
+                 # the caller's context is already cancelled: a failing lookup is still a ROUTING error, a routable call is still routed
+                 "ctx_done": rng.random() < 0.2}
             if k < 0.06:
                 c["lds"] = C("RGood", C("Build_listener_pb", "svc-listener", L([]), None))            # empty listener
             elif k < 0.1:
@@ -54,7 +56,7 @@ class Mw:
 
     @staticmethod
     def to_harness(c):
-        return {k: c[k] for k in ("lds", "named", "call", "fault_lis", "fault_named", "pre_tag", "t0", "match_method", "lock_timeout")}
+        return {k: c[k] for k in ("lds", "named", "call", "fault_lis", "fault_named", "pre_tag", "t0", "match_method", "lock_timeout", "ctx_done")}
 
     @staticmethod
     def to_gallina(c, o):
